@@ -281,6 +281,10 @@ Qed.
 
 #[export] Hint Resolve native_body_grows : grows.
 
+Lemma fs_call_grows : forall name args st, grows st (fs_call name args st).
+Proof. intros name args st. unfold fs_call, set_fs. grow. Qed.
+#[export] Hint Resolve fs_call_grows : grows.
+
 Lemma native_call_grows : forall m name sig args spans st, grows st (native_call m name sig args spans st).
 Proof. intros m name sig args spans st. unfold native_call. grow. Qed.
 #[export] Hint Resolve native_call_grows : grows.
